@@ -542,8 +542,13 @@ class PolyFixedVariableComposite(ComposedPolySampler):
             sampleset = child.sample_poly(poly_copy, **parameters)
             if len(sampleset):
                 return append_variables(sampleset, fixed_variables)
-            elif fixed_variables:
+            elif fixed_variables and not poly_copy.variables:
                 return type(sampleset).from_samples_bqm(fixed_variables, bqm=poly)
+            elif fixed_variables:
+                # no rows to append the fixed values to: an empty sample set over all variables
+                labels = list(sampleset.variables) + list(fixed_variables)
+                return type(sampleset).from_samples(([], labels), energy=[], vartype=poly.vartype,
+                                                     info=sampleset.info)
             else:
                 return sampleset
 
